@@ -158,6 +158,22 @@ def run_cut_loop(ex, stmt, st, key, lc, guard_fn, bind_fn, advance_fn, label):
     advance_fn(state) -> None (mutates the state: end of an iteration, e.g. index += 1)
     Returns list of (state, outcome, value) for the code after the loop.
     """
+    eb = (lc or {}).get('entry_bind')
+    if eb:
+        # ghosts that the invariants speak about are computed once in the loop-entry state (may fork); the loop is then
+        # run from each of the resulting entry states
+        lc2 = dict(lc)
+        lc2.pop('entry_bind')
+        saved = getattr(ex, '_entry_state', None)
+        ex._entry_state = st
+        try:
+            entries = eb(ex, st)
+        finally:
+            ex._entry_state = saved
+        out = []
+        for s0 in entries:
+            out.extend(run_cut_loop(ex, stmt, s0, key, lc2, guard_fn, bind_fn, advance_fn, label))
+        return out
     invs = (lc or {}).get('inv', [])
     extra_havoc = set((lc or {}).get('havoc', []))
     hset = {('var', n) for n in assigned_names(stmt.body)}
